@@ -142,6 +142,8 @@ pub struct Program {
     pub classrefs: Vec<ClassRefInfo>,
     pub lets: Vec<LetInfo>,
     pub feat: Features,
+    /// (file, range, feature name) of the less common constructs, innermost last
+    pub spans: Vec<(usize, (usize, usize), &'static str)>,
 }
 
 #[derive(Clone, Debug)]
@@ -209,6 +211,9 @@ pub struct Sem<'a> {
     cond_depth: usize,
     uninit: std::collections::BTreeSet<usize>,
     wrote_unset: bool,
+    /// constructs not to generate (excluded by construction because of a listed known finding)
+    pub disabled: std::collections::BTreeSet<String>,
+    pub excluded: usize,
 }
 
 const FIELD_TYPES: [fn() -> Ty; 8] = [
@@ -247,6 +252,8 @@ impl<'a> Sem<'a> {
             cond_depth: 0,
             uninit: Default::default(),
             wrote_unset: false,
+            disabled: Default::default(),
+            excluded: 0,
         }
     }
 
@@ -429,6 +436,56 @@ impl<'a> Sem<'a> {
             || self.rec_targs.iter().any(|f| f.0 == name)
     }
 
+    /// writes a type, recording class names in it as uses
+    fn write_type(&mut self, ty: &Ty) {
+        match ty {
+            Ty::List(el) => {
+                self.w("list<");
+                let el = (**el).clone();
+                self.write_type(&el);
+                self.w(">");
+            }
+            Ty::Class(c) => {
+                let d = self.class(c).map(|ci| ci.decl);
+                let c = c.clone();
+                match d {
+                    Some(d) => {
+                        self.ident(&c, Role::Use(d));
+                    }
+                    None => self.w(&c),
+                }
+            }
+            other => {
+                let r = other.render();
+                self.w(&r)
+            }
+        }
+    }
+
+    fn on(&mut self, feature: &str) -> bool {
+        if self.disabled.contains(feature) {
+            self.excluded += 1;
+            false
+        } else {
+            true
+        }
+    }
+    fn span(&mut self, feature: &'static str, start: usize) {
+        let r = (start, self.here());
+        self.p.spans.push((self.cur, r, feature));
+    }
+    fn visible_bits_at_least(&self, n: usize) -> Vec<(String, usize, usize)> {
+        let mut out = Vec::new();
+        for m in [4usize, 8] {
+            if m >= n {
+                for (name, d) in self.visible_of_type(&Ty::Bits(m)) {
+                    out.push((name, d, m));
+                }
+            }
+        }
+        out
+    }
+
     // ---- values --------------------------------------------------------------------------
 
     /// writes a value of type `ty`
@@ -442,8 +499,40 @@ impl<'a> Sem<'a> {
         }
         let deep = depth >= 2;
         match ty {
-            Ty::Int => match self.rng.below(if deep { 2 } else { 9 }) {
+            Ty::Int => match self.rng.below(if deep { 2 } else { 13 }) {
                 0 | 1 => {
+                    let v = self.rng.below(100).to_string();
+                    self.w(&v)
+                }
+                9 if self.on("list-index") => {
+                    let st = self.here();
+                    self.value_atom_list_int(depth);
+                    self.w("[0]");
+                    self.span("list-index", st);
+                }
+                10 if self.on("head") => {
+                    let st = self.here();
+                    self.bang("!head", &[Ty::List(Box::new(Ty::Int))], depth);
+                    self.span("head", st);
+                }
+                11 if self.on("cond") => {
+                    let st = self.here();
+                    self.p.feat.bang_ops += 1;
+                    self.w("!cond(");
+                    self.value(&Ty::Bit, depth + 1);
+                    self.w(": ");
+                    self.value(&Ty::Int, depth + 1);
+                    self.w(", true: ");
+                    self.value(&Ty::Int, depth + 1);
+                    self.w(")");
+                    self.span("cond", st);
+                }
+                12 if self.on("foldl") => {
+                    let st = self.here();
+                    self.bang_foldl(depth);
+                    self.span("foldl", st);
+                }
+                9..=12 => {
                     let v = self.rng.below(100).to_string();
                     self.w(&v)
                 }
@@ -455,8 +544,34 @@ impl<'a> Sem<'a> {
                 7 => self.bang("!shl", &[Ty::Int, Ty::Int], depth),
                 _ => self.field_access(&Ty::Int, depth),
             },
-            Ty::Str => match self.rng.below(if deep { 2 } else { 7 }) {
+            Ty::Str => match self.rng.below(if deep { 2 } else { 9 }) {
                 0 | 1 => {
+                    let v = self.fresh("s");
+                    self.w(&format!("\"{v}\""))
+                }
+                7 if self.on("getdagname-index") && !self.defs.is_empty() => {
+                    let st = self.here();
+                    self.p.feat.bang_ops += 1;
+                    self.w("!getdagname(");
+                    self.value(&Ty::Dag, depth + 1);
+                    self.w(", 0)");
+                    self.span("getdagname-index", st);
+                }
+                8 if self.on("cast-string") && !self.defs.is_empty() => {
+                    let st = self.here();
+                    self.p.feat.bang_ops += 1;
+                    let cands: Vec<(String, usize)> = self.defs.iter().filter(|d| !self.name_is_local(&d.name)).map(|d| (d.name.clone(), d.decl)).collect();
+                    if cands.is_empty() {
+                        self.w("\"none\"");
+                    } else {
+                        let (n, d) = cands[self.rng.below(cands.len())].clone();
+                        self.w("!cast<string>(");
+                        self.ident(&n, Role::Use(d));
+                        self.w(")");
+                    }
+                    self.span("cast-string", st);
+                }
+                7 | 8 => {
                     let v = self.fresh("s");
                     self.w(&format!("\"{v}\""))
                 }
@@ -478,7 +593,34 @@ impl<'a> Sem<'a> {
                 }
                 _ => self.bang("!interleave", &[Ty::List(Box::new(Ty::Str)), Ty::Str], depth),
             },
-            Ty::Bit => match self.rng.below(if deep { 2 } else { 7 }) {
+            Ty::Bit => match self.rng.below(if deep { 2 } else { 9 }) {
+                7 if self.on("bit-of-bits") && !self.visible_bits_at_least(1).is_empty() => {
+                    let st = self.here();
+                    let c = self.visible_bits_at_least(1);
+                    let (n, d, m) = c[self.rng.below(c.len())].clone();
+                    self.ident(&n, Role::Use(d));
+                    let k = self.rng.below(m);
+                    self.w(&format!("{{{k}}}"));
+                    self.span("bit-of-bits", st);
+                }
+                8 if self.on("isa") && !self.classes.is_empty() && !self.defs.is_empty() => {
+                    let st = self.here();
+                    self.p.feat.bang_ops += 1;
+                    let c = self.classes[self.rng.below(self.classes.len())].clone();
+                    let cands: Vec<(String, usize)> = self.defs.iter().filter(|d| !self.name_is_local(&d.name)).map(|d| (d.name.clone(), d.decl)).collect();
+                    if cands.is_empty() {
+                        self.w("true");
+                    } else {
+                        let (n, d) = cands[self.rng.below(cands.len())].clone();
+                        self.w("!isa<");
+                        self.ident(&c.name, Role::Use(c.decl));
+                        self.w(">(");
+                        self.ident(&n, Role::Use(d));
+                        self.w(")");
+                    }
+                    self.span("isa", st);
+                }
+                7 | 8 => self.w("false"),
                 0 => self.w("true"),
                 1 => self.w("false"),
                 2 => self.bang("!eq", &[Ty::Int, Ty::Int], depth),
@@ -487,6 +629,24 @@ impl<'a> Sem<'a> {
                 5 => self.bang("!empty", &[Ty::List(Box::new(Ty::Int))], depth),
                 _ => self.bang("!ne", &[Ty::Str, Ty::Str], depth),
             },
+            Ty::Bits(n) if self.rng.chance(1, 3) && !self.visible_bits_at_least(*n).is_empty() && self.on("bits-range-slice") => {
+                // a slice of n bits out of a wider (or equal) bits value
+                let st = self.here();
+                let c = self.visible_bits_at_least(*n);
+                let (name, d, m) = c[self.rng.below(c.len())].clone();
+                self.ident(&name, Role::Use(d));
+                let lo = self.rng.below(m - n + 1);
+                let hi = lo + n - 1;
+                match self.rng.below(3) {
+                    0 => self.w(&format!("{{{hi}-{lo}}}")),
+                    1 => self.w(&format!("{{{hi}...{lo}}}")),
+                    _ => {
+                        let list: Vec<String> = (lo..=hi).rev().map(|b| b.to_string()).collect();
+                        self.w(&format!("{{{}}}", list.join(", ")));
+                    }
+                }
+                self.span("bits-range-slice", st);
+            }
             Ty::Bits(n) => match self.rng.below(3) {
                 0 => {
                     self.w("{");
@@ -530,12 +690,38 @@ impl<'a> Sem<'a> {
                     5 if el == Ty::Int => self.bang_foreach(&el, depth),
                     6 if el == Ty::Int => self.bang_filter(depth),
                     7 if el == Ty::Int => self.bang("!range", &[Ty::Int], depth),
+                    6 | 7 if matches!(el, Ty::Class(_)) && self.on("listconcat-defs") => {
+                        let st = self.here();
+                        self.p.feat.bang_ops += 1;
+                        self.w("!listconcat([");
+                        self.value(&el, depth + 1);
+                        self.w("], [");
+                        self.value(&el, depth + 1);
+                        self.w("])");
+                        self.span("listconcat-defs", st);
+                    }
+                    5 if el == Ty::Str && self.on("list-slice") => {
+                        let st = self.here();
+                        self.w("[");
+                        self.value(&el, depth + 1);
+                        self.w(", ");
+                        self.value(&el, depth + 1);
+                        self.w(", ");
+                        self.value(&el, depth + 1);
+                        self.w("][0...1]");
+                        self.span("list-slice", st);
+                    }
                     _ => {
                         self.w("[");
                         self.value(&el, depth + 1);
                         self.w("]");
                     }
                 }
+            }
+            Ty::Dag if !deep && self.rng.chance(1, 4) && !self.defs.is_empty() && self.on("con") => {
+                let st = self.here();
+                self.bang("!con", &[Ty::Dag, Ty::Dag], depth);
+                self.span("con", st);
             }
             Ty::Dag => {
                 // operator: a def
@@ -546,13 +732,29 @@ impl<'a> Sem<'a> {
                         let k = self.rng.below(3);
                         for i in 0..k {
                             self.w(if i == 0 { " " } else { ", " });
-                            match self.rng.below(3) {
+                            // an argument must not start with `[` or `{`: after the operator that would
+                            // read as a slice / bit-range suffix of the operator itself
+                            match self.rng.below(4) {
                                 0 => self.w("$x"),
                                 1 => {
-                                    self.value(&Ty::Int, depth + 1);
+                                    let v = self.rng.below(50).to_string();
+                                    self.w(&v);
                                     self.w(":$a");
                                 }
-                                _ => self.value(&Ty::Str, depth + 1),
+                                2 => {
+                                    let vis = self.visible_of_type(&Ty::Int);
+                                    if vis.is_empty() {
+                                        self.w("7");
+                                    } else {
+                                        let (n, d) = vis[self.rng.below(vis.len())].clone();
+                                        self.ident(&n, Role::Use(d));
+                                    }
+                                    self.w(":$b");
+                                }
+                                _ => {
+                                    let v = self.fresh("s");
+                                    self.w(&format!("\"{v}\""))
+                                }
                             }
                         }
                         self.w(")");
@@ -569,6 +771,18 @@ impl<'a> Sem<'a> {
                 } else {
                     self.w("\"code\"")
                 }
+            }
+            Ty::Class(c) if self.rng.chance(1, 5) && !self.defs_of_class(c).is_empty() && self.on("cast-class") => {
+                let st = self.here();
+                self.p.feat.bang_ops += 1;
+                let ds = self.defs_of_class(c);
+                let (n, _) = ds[self.rng.below(ds.len())].clone();
+                let cd = self.class(c).unwrap().decl;
+                self.w("!cast<");
+                let c2 = c.clone();
+                self.ident(&c2, Role::Use(cd));
+                self.w(&format!(">(\"{n}\")"));
+                self.span("cast-class", st);
             }
             Ty::Class(c) => {
                 let ds = self.defs_of_class(c);
@@ -594,6 +808,55 @@ impl<'a> Sem<'a> {
             }
             self.value(t, depth + 1);
         }
+        self.w(")");
+    }
+
+    /// a list<int> value that can take a `[0]` suffix: a visible variable or a literal list
+    fn value_atom_list_int(&mut self, depth: usize) {
+        let vis = self.visible_of_type(&Ty::List(Box::new(Ty::Int)));
+        if !vis.is_empty() && self.rng.chance(2, 3) {
+            let (n, d) = vis[self.rng.below(vis.len())].clone();
+            self.ident(&n, Role::Use(d));
+        } else {
+            self.w("[");
+            self.value(&Ty::Int, depth + 1);
+            self.w(", 7]");
+        }
+    }
+
+    /// `!foldl(<int>, <list<int>>, acc, x, !add(acc, x))`
+    fn bang_foldl(&mut self, depth: usize) {
+        self.p.feat.bang_ops += 1;
+        self.w("!foldl(");
+        self.value(&Ty::Int, depth + 1);
+        self.w(", ");
+        self.value(&Ty::List(Box::new(Ty::Int)), depth + 1);
+        self.w(", ");
+        let acc = self.fresh("acc");
+        let x = self.fresh("x");
+        let mk = |me: &mut Self, name: &str| -> usize {
+            let s = me.here();
+            me.w(name);
+            let r = (s, me.here());
+            let d = me.p.decls.len();
+            me.p.decls.push(Decl { id: d, kind: DeclKind::BangVar, name: name.to_string(), file: me.cur, range: r, ty: Some(Ty::Int), doc: None, owner: None, overridden: false, pasted: false });
+            me.p.occs.push(Occ { file: me.cur, range: r, role: Role::Decl(d) });
+            d
+        };
+        let da = mk(self, &acc);
+        self.w(", ");
+        let dx = mk(self, &x);
+        self.w(", ");
+        self.scopes.push(vec![Var { name: acc.clone(), ty: Ty::Int, decl: da }, Var { name: x.clone(), ty: Ty::Int, decl: dx }]);
+        self.p.feat.nested_scopes = self.p.feat.nested_scopes.max(self.scopes.len());
+        self.w("!add(");
+        self.ident(&acc, Role::Use(da));
+        self.w(", ");
+        self.ident(&x, Role::Use(dx));
+        self.w(")");
+        self.scopes.pop();
+        self.dead.push((acc, da));
+        self.dead.push((x, dx));
         self.w(")");
     }
 
@@ -730,7 +993,7 @@ impl<'a> Sem<'a> {
                 1 => Ty::Bit,
                 _ => Ty::Int,
             };
-            self.w(&ty.render());
+            self.write_type(&ty);
             self.w(" ");
             let name = self.fresh("p");
             let d = self.declare(DeclKind::TemplateArg, &name, Some(ty.clone()), None, Some(owner));
@@ -806,11 +1069,22 @@ impl<'a> Sem<'a> {
             match self.rng.below(8) {
                 0..=3 if allow_new_fields => {
                     let doc = self.doc_comment();
-                    let ty = FIELD_TYPES[self.rng.below(FIELD_TYPES.len())]();
+                    let mut ty = FIELD_TYPES[self.rng.below(FIELD_TYPES.len())]();
+                    if self.rng.chance(1, 6) {
+                        ty = Ty::Bits(8);
+                    }
+                    // class-typed fields where a def of that class exists to initialise them
+                    if self.rng.chance(1, 5) && self.on("class-typed-field") {
+                        let cands: Vec<String> = self.classes.iter().filter(|c| !self.defs_of_class(&c.name).is_empty()).map(|c| c.name.clone()).collect();
+                        if !cands.is_empty() {
+                            let c = cands[self.rng.below(cands.len())].clone();
+                            ty = if self.rng.chance(1, 2) { Ty::Class(c) } else { Ty::List(Box::new(Ty::Class(c))) };
+                        }
+                    }
                     if self.rng.chance(1, 8) {
                         self.w("field ");
                     }
-                    self.w(&ty.render());
+                    self.write_type(&ty);
                     self.w(" ");
                     let name = self.fresh("f");
                     let d = self.declare(DeclKind::Field, &name, Some(ty.clone()), doc, Some(owner));
